@@ -30,7 +30,8 @@ def noncanonical_sd(rng):
         k = rng.randrange(5)
         if k == 0:      # configuration option (encoded here, not by the library): empty values, '=' in values, empty keys,
                         # garbage after the terminating zero, non-zero reserved byte
-            strs = [rng.choice([b"a=b", b"k", b"flag=", b"=v", b"a==", b"x=1=2", b"key=" + b"v" * rng.randint(0, 40), b"K" * rng.randint(1, 60)])
+            strs = [rng.choice([b"a=b", b"k", b"flag=", b"=v", b"a==", b"x=1=2", b"key=" + b"v" * rng.randint(0, 40), b"K" * rng.randint(1, 60),
+                                b"K" * rng.choice([253, 254, 255]), b"k=" + b"v" * rng.choice([251, 252, 253]), b"K" * 254 + b"="])
                     for _ in range(rng.randint(0, 4))]
             body = bytes([rng.choice([0, 0, rng.getrandbits(8)])]) + b"".join(bytes([len(x)]) + x for x in strs) + b"\x00" \
                 + rng.choice([b"", b"", rng.randbytes(rng.randint(1, 4))])
